@@ -134,7 +134,7 @@ class Program:
         return c
 
 
-def load_program(repo=REPO, ndebug=True, witness_units=("instantiate.cpp",), verbose=False):
+def load_program(repo=REPO, ndebug=True, witness_units=("instantiate.cpp",), verbose=False, cache=True):
     ensure_extractor()
     t0 = time.time()
     flags = compile_flags(repo, ndebug)
@@ -145,6 +145,11 @@ def load_program(repo=REPO, ndebug=True, witness_units=("instantiate.cpp",), ver
             extra.append(os.path.join(root, f))
     key = _tree_hash(repo, extra) + ("-nd" if ndebug else "-dbg")
     cdir = os.path.join(CACHE, key)
+    tmp_cache = None
+    if not cache:
+        import tempfile
+        tmp_cache = tempfile.mkdtemp(prefix="nstd-verif-facts-", dir=os.environ.get("TMPDIR") or "/var/tmp")
+        cdir = tmp_cache
     os.makedirs(cdir, exist_ok=True)
     units = [(u, False) for u in library_units(repo)] + [(w, True) for w in wit]
     if len(units) - len(wit) < 20:
@@ -189,13 +194,15 @@ def load_program(repo=REPO, ndebug=True, witness_units=("instantiate.cpp",), ver
             if f["sig"] not in prog.functions:
                 prog.functions[f["sig"]] = Function(f, prog)
     prog.t_extract = time.time() - t0
-    # keep the cache small: drop other keys
+    # keep the cache small: the current key plus the two most recently used others
     try:
-        for k in os.listdir(CACHE):
-            if k != key and not k.startswith(key[:24]):
-                p = os.path.join(CACHE, k)
-                if time.time() - os.path.getmtime(p) > 3600:
-                    subprocess.run(["rm", "-rf", p])
+        if tmp_cache:
+            subprocess.run(["rm", "-rf", tmp_cache])
+        else:
+            os.utime(cdir, None)
+            others = sorted((k for k in os.listdir(CACHE) if k != key), key=lambda k: os.path.getmtime(os.path.join(CACHE, k)), reverse=True)
+            for k in others[2:]:
+                subprocess.run(["rm", "-rf", os.path.join(CACHE, k)])
     except OSError:
         pass
     return prog
